@@ -4,6 +4,11 @@ use crate::env::{Path, SmallString};
 use crate::naming::*;
 use vnd::harness;
 
+/// documented meaning (format/manifest.rs: DETACHED_VERSION_MASK): a version is detached iff its top bit is set
+fn spec_detached(v: u64) -> bool {
+    v >> 63 == 1
+}
+
 fn any_scheme() -> ManifestNamingScheme {
     if vnd::any::<bool>() {
         ManifestNamingScheme::V1
@@ -18,7 +23,8 @@ harness!(attached_roundtrip, 24, {
     // the number that gets printed is v under V1 and u64::MAX - v under V2: draw that one by its digits
     let printed = crate::env::verif_any_number();
     let v = if s == ManifestNamingScheme::V1 { printed } else { u64::MAX - printed };
-    vnd::assume(!is_detached_version(v));
+    vnd::assume(!spec_detached(v));
+    assert!(!is_detached_version(v));
     let p = s.manifest_path(&Path::root(), v);
     let name = p.verif_name();
     vnd::cover!(s == ManifestNamingScheme::V1 && name.len() == 28, "a V1 name with 19 digits");
@@ -31,11 +37,12 @@ harness!(attached_roundtrip, 24, {
 // @harness props=C33 tier=quick timeout=900 desc="detached versions: the name starts with 'd', is never parsed as an attached version under either scheme, and is detected as V2"
 harness!(detached_never_attached, 24, {
     let v: u64 = crate::env::verif_any_number();
-    vnd::assume(is_detached_version(v));
+    vnd::assume(spec_detached(v));
+    assert!(is_detached_version(v));
     let s = any_scheme();
     let t = any_scheme();
     let name = s.manifest_path(&Path::root(), v).verif_name();
-    vnd::cover!(v == u64::MAX, "largest detached version");
+    vnd::cover!(v == 1 << 63, "smallest detached version");
     assert!(name.as_bytes()[0] == b'd');
     assert!(t.parse_version(name.as_str()).is_none());
     assert!(ManifestNamingScheme::detect_scheme(name.as_str()) == Some(ManifestNamingScheme::V2));
@@ -53,14 +60,14 @@ harness!(v2_reverse_order_full, 42, {
 
 fn v2_order_case(limit: u64) {
     let (v1, v2): (u64, u64) = (u64::MAX - crate::env::verif_any_number(), u64::MAX - crate::env::verif_any_number());
-    vnd::assume(!is_detached_version(v1) && !is_detached_version(v2) && v1 < limit && v2 < limit);
+    vnd::assume(!spec_detached(v1) && !spec_detached(v2) && v1 < limit && v2 < limit);
     let n1 = ManifestNamingScheme::V2.manifest_path(&Path::root(), v1).verif_name();
     let n2 = ManifestNamingScheme::V2.manifest_path(&Path::root(), v2).verif_name();
     vnd::cover!(v1 + 1 == v2 && v1 % 10 == 9, "successive versions across a decimal carry");
     assert!(n1.len() == 29 && n2.len() == 29);
     assert!((v1 < v2) == (n2.as_bytes() < n1.as_bytes()));
     let d: u64 = vnd::any();
-    vnd::assume(is_detached_version(d));
+    vnd::assume(spec_detached(d));
     let nd = any_scheme().manifest_path(&Path::root(), d).verif_name();
     assert!(n1.as_bytes() < nd.as_bytes());
 }
@@ -70,7 +77,8 @@ harness!(scan_keeps_maximum, 42, {
     let scheme = any_scheme();
     let printed = crate::env::verif_any_number();
     let v = if scheme == ManifestNamingScheme::V1 { printed } else { u64::MAX - printed };
-    vnd::assume(!is_detached_version(v));
+    vnd::assume(!spec_detached(v));
+    assert!(!is_detached_version(v));
     let entry = scheme.manifest_path(&Path::root(), v).verif_name();
     let had: bool = vnd::any();
     let prev_v: u64 = vnd::any();
